@@ -1,9 +1,11 @@
 """C10 — lookup prefilters (glyph-set digests) never change the shaping result.
 Proof: Props/C10.v (soundness of add / add_array / add_range incl. wrap and saturation, may_have, no
-overflow in checked builds for a <= b) over Model/Digest.v with shifts from Gen/Consts.v.
+overflow in checked builds for any a, b) over Model/Digest.v with shifts from Gen/Consts.v; transparency of the
+lookup-skip decision for an abstract interpreter under three stated conditions (Model/Prefilter.v).
 Tie: translator (shifts, width) + hook correspondence on the real hb_set_digest_t (exhaustive bit
 positions, add_range classes + random, random op sequences; release and overflow-checked builds).
-Search: implementation-level soundness predicate; prefilter on/off on corpus fonts."""
+Search: implementation-level soundness predicate; prefilter on/off on corpus fonts; run-time monitor of the
+apply context's digest at every skip decision (hook)."""
 import re
 
 import common as C
